@@ -104,6 +104,9 @@ structure Access where
   pre : List Nat        -- spawn statements this access precedes in its spawner function
   post : List Nat       -- spawn statements this access's thread descends from
   hb : List Nat         -- named happens-before hypotheses this access relies on
+  use : Bool            -- the value read is used (false: only compared with nil)
+  live : Bool           -- pointer found in the registry under the registry lock, which is still held
+  valid : Bool          -- re-checked non-nil under a lock the teardown holds, which is still held
 deriving DecidableEq, Repr
 
 def inter (a b : List Nat) : Bool := a.any (fun x => b.contains x)
@@ -157,5 +160,69 @@ def dedup : List Nat → List Nat
 
 /-- classes with at least one incompatible pair -/
 def badClasses (facts : List Access) : List Nat := dedup ((violatingPairs facts).map (·.1))
+
+/-! ## Object life cycle: no use of a torn-down object ("stale pointer")
+
+  Pairwise common locks are not enough for "handlers never observe a runner that was unloaded":
+  a reader that finds the pointer in the registry under the registry lock, RELEASES it, and then
+  reads the object under the object's own lock is race-free, yet may read fields the teardown has
+  cleared.  A use of a cleared field is accepted only if the pointer is still `live` (found in
+  the registry under the registry lock, lock held ever since), or `valid` (re-checked non-nil
+  under a lock the teardown holds, held ever since), or fresh, or covered by the holder
+  hypothesis (C01: a granted runner is open and is not closed while in use). -/
+
+/-- every non-initialising write of class `c` in the table holds mutex `l` -/
+def writesHold (facts : List Access) (c : Nat) (l : LockRef) : Bool :=
+  facts.all (fun a => a.cls != c || !(a.kind == .write || a.kind == .mapInsert || a.kind == .mapDelete) ||
+    a.init || a.locks.contains l)
+
+/-- `G` = the registry lock, `S` = the object's own lock.  `live` only protects classes all of
+    whose writes hold `G`; `valid` only those all of whose writes hold `S`. -/
+def staleRead (facts : List Access) (cleared : List Nat) (holderHb : Nat) (G S : LockRef) (a : Access) : Bool :=
+  a.kind == .read && cleared.contains a.cls && a.use &&
+    !((a.live && writesHold facts a.cls G) || (a.valid && writesHold facts a.cls S) ||
+      a.init || a.hb.contains holderHb)
+
+/-- (class, site) of every stale read, in table order -/
+def staleReads (facts : List Access) (cleared : List Nat) (holderHb : Nat) (G S : LockRef) : List (Nat × Nat) :=
+  (facts.filter (staleRead facts cleared holderHb G S)).map (fun a => (a.cls, a.site))
+
+/-- life-cycle events on top of the mutex events: `clear` = teardown of object `o` (needs the
+    registry lock AND the object's lock; also removes `o` from the registry, one atomic region),
+    `lookup` = the thread finds `o` in the registry (needs the registry lock; only objects not
+    torn down are in it), `check` = a nil re-check that passed (needs the object's lock),
+    `use` = a use of a cleared field. -/
+inductive LEv where
+  | sync (e : Ev)
+  | clear (t : Thread) (o : Nat)
+  | lookup (t : Thread) (o : Nat)
+  | check (t : Thread) (o : Nat)
+  | use (t : Thread) (o : Nat)
+deriving DecidableEq, Repr
+
+structure LState where
+  holder : Holder
+  cleared : Nat → Bool
+
+def LState.init : LState := ⟨Holder.init, fun _ => false⟩
+
+/-- `G` = the registry lock, `S o` = object `o`'s own lock -/
+def lstep (G : Lock) (S : Nat → Lock) (s : LState) : LEv → Option LState
+  | .sync e => match step s.holder e with
+    | none => none
+    | some h => some { s with holder := h }
+  | .clear t o =>
+    if s.holder G = some t ∧ s.holder (S o) = some t then
+      some { s with cleared := fun o' => if o' = o then true else s.cleared o' }
+    else none
+  | .lookup t o => if s.holder G = some t ∧ s.cleared o = false then some s else none
+  | .check t o => if s.holder (S o) = some t ∧ s.cleared o = false then some s else none
+  | .use _ _ => some s
+
+def lrun (G : Lock) (S : Nat → Lock) (s : LState) : List LEv → Option LState
+  | [] => some s
+  | e :: es => match lstep G S s e with
+    | none => none
+    | some s' => lrun G S s' es
 
 end OllamaVerif.Lockset
